@@ -657,6 +657,151 @@ func (g *gen) oneCase(steps int) {
 	}
 }
 
+// ---- directed histories (run after the random ones: the random stream of the cases above is unchanged)
+
+// startDirected: a fresh cluster of n servers, every volume id with replication rp; a few bystander volumes
+func (g *gen) startDirected(n int, asMin bool) {
+	r := g.r
+	g.n = n
+	g.nVid = 12
+	g.limit = 1000
+	apply([]string{"reset", si(g.limit), hx.B(asMin), si(g.nVid)})
+	g.attr = make([]vattr, g.nVid+1)
+	for v := 1; v <= g.nVid; v++ {
+		g.attr[v] = vattr{coll: r.Intn(2), rp: []int{0, 1, 10}[r.Intn(3)], ttl: []int{0, 0, 769}[r.Intn(3)], disk: []int{0, 0, 1}[r.Intn(3)]}
+	}
+	g.srv = nil
+	for i := 0; i < n; i++ {
+		g.srv = append(g.srv, &tsrv{dc: r.Intn(2), rack: r.Intn(2), maxH: 5 + r.Intn(6), maxS: 4 + r.Intn(4), vols: map[int]*tvol{}, ecs: map[int]int{}, oldFull: "-", oldEc: "-"})
+	}
+}
+
+func (g *gen) connectDirected(i int) {
+	s := g.srv[i]
+	apply([]string{"conn", si(i), si(s.dc), si(s.rack), si(s.maxH), si(s.maxS)})
+	s.up = true
+	g.heartbeatPrelude(i)
+}
+
+func (g *gen) sendFull(i int) {
+	g.heartbeatPrelude(i)
+	apply([]string{"full", si(i), g.fullTok(g.srv[i])})
+}
+
+func (g *gen) noise() {
+	r := g.r
+	switch r.Intn(6) {
+	case 0:
+		apply([]string{"refresh"})
+	case 1:
+		g.sendFull(r.Intn(g.n))
+	case 2:
+		i := r.Intn(g.n)
+		g.heartbeatPrelude(i)
+		apply([]string{"ecfull", si(i), g.ecTok(g.srv[i])})
+	}
+}
+
+func copyCount(rp int) int { return rp/100 + (rp%100)/10 + rp%10 + 1 }
+
+// a replica is first reported at / over the size limit while some replica of the volume (itself or a peer
+// that registered earlier) is read-only; later a full heartbeat clears the read-only flag (same sizes);
+// the replica count matches the replication setting throughout
+func (g *gen) directedOversizedWhileReadOnly() {
+	r := g.r
+	vid := 1 + r.Intn(12)
+	g.startDirected(2+r.Intn(2), r.Chance(1, 5))
+	cc := copyCount(g.attr[vid].rp)
+	for i := 0; i < g.n; i++ { // bystanders
+		for j := 0; j < r.Intn(3); j++ {
+			if b := 1 + r.Intn(g.nVid); b != vid {
+				g.srv[i].vols[b] = &tvol{size: r.Intn(g.limit), ro: r.Chance(1, 5)}
+			}
+		}
+	}
+	// registration order of the cc replicas; the read-only one is not later than the oversized one
+	order := []int{0, 1}[:cc]
+	if cc == 2 && r.Bool() {
+		order[0], order[1] = 1, 0
+	}
+	roAt, ovAt := r.Intn(cc), r.Intn(cc)
+	if roAt > ovAt {
+		roAt, ovAt = ovAt, roAt
+	}
+	for k, i := range order {
+		g.srv[i].vols[vid] = &tvol{size: r.Intn(g.limit), ro: k == roAt}
+		if k == ovAt {
+			g.srv[i].vols[vid].size = g.limit + r.Intn(50)
+		}
+		if !g.srv[i].up {
+			g.connectDirected(i)
+		}
+		g.sendFull(i)
+		if r.Chance(1, 3) {
+			g.noise()
+		}
+	}
+	for i := 0; i < g.n; i++ {
+		if !g.srv[i].up && r.Bool() {
+			g.connectDirected(i)
+			g.sendFull(i)
+		}
+	}
+	for j := 0; j < r.Intn(3); j++ {
+		g.noise()
+	}
+	// the read-only flag goes away; the next full heartbeat says so
+	g.srv[order[roAt]].vols[vid].ro = false
+	g.sendFull(order[roAt])
+	for j := 0; j < r.Intn(3); j++ {
+		g.noise()
+	}
+}
+
+// a server with registered volumes sends a full heartbeat WITHOUT volumes (HasNoVolumes): it lost / dropped
+// everything and no incremental deletion was processed before
+func (g *gen) directedEmptyFullHeartbeat() {
+	r := g.r
+	vid := 1 + r.Intn(12)
+	g.startDirected(2+r.Intn(2), r.Chance(1, 5))
+	cc := copyCount(g.attr[vid].rp)
+	for i := 0; i < g.n; i++ {
+		if i < cc {
+			g.srv[i].vols[vid] = &tvol{size: r.Intn(g.limit)}
+		}
+		for j := 0; j < r.Intn(3); j++ {
+			if b := 1 + r.Intn(g.nVid); b != vid {
+				g.srv[i].vols[b] = &tvol{size: r.Intn(g.limit), ro: r.Chance(1, 6)}
+			}
+		}
+		if r.Chance(1, 4) {
+			g.srv[i].ecs[1+r.Intn(g.nVid)] = 1 + r.Intn(1<<14-1)
+		}
+		g.connectDirected(i)
+		g.sendFull(i)
+		if len(g.srv[i].ecs) > 0 {
+			apply([]string{"ecfull", si(i), g.ecTok(g.srv[i])})
+		}
+	}
+	for j := 0; j < r.Intn(3); j++ {
+		g.noise()
+	}
+	victim := r.Intn(cc)
+	g.srv[victim].vols = map[int]*tvol{}
+	g.sendFull(victim) // "full <victim> -"
+	for j := 0; j < r.Intn(3); j++ {
+		g.noise()
+	}
+	if r.Bool() { // the volume comes back
+		g.srv[victim].vols[vid] = &tvol{size: r.Intn(g.limit)}
+		if r.Bool() {
+			g.heartbeatPrelude(victim)
+			apply([]string{"inc", si(victim), g.short(vid), "-"})
+		}
+		g.sendFull(victim)
+	}
+}
+
 func main() {
 	a := hx.ParseArgs()
 	flag.Set("logtostderr", "true") // glog of the code under test: no log files, no chatter
@@ -677,5 +822,9 @@ func main() {
 	g := &gen{r: hx.NewRng(a.Seed)}
 	for c := 0; c < a.N(250); c++ {
 		g.oneCase(10 + g.r.Intn(50))
+	}
+	for c := 0; c < a.N(30); c++ {
+		g.directedOversizedWhileReadOnly()
+		g.directedEmptyFullHeartbeat()
 	}
 }
